@@ -122,10 +122,11 @@ ASSUMPTIONS = ['no other process writes to the data base directory while a comma
                'are NOT read-side use: C18_raw_dml_boundary_refuted shows (and the harness confirms on a private copy) '
                'that ReadOnlySession does not stop them',
                'the file system reports modification through mtime_ns / content; atime is ignored',
-               'the genome file has no PENDING (not yet checkpointed) frames in a leftover -wal file, i.e. it was not left '
-               'behind by a crashed or still running writer: SQLite itself transfers such frames into the file when ANY '
-               'connection to it closes, a reading one included, because gambit opens the file read-write (observed on every '
-               'run, not judged: extra.wal_pending_frames_after_read_side_query); the dbstate stream therefore only generates '
+               'a genome file with PENDING (not yet checkpointed) frames in a leftover -wal file (left behind by a crashed '
+               'writer) is a separate kind (walpending): SQLite transfers such frames into the file when ANY connection to '
+               'it closes, a reading one included, because gambit opens the file read-write -- `gambit query` changes the '
+               'bytes of the genome file: genuine defect, known finding C18-wal-pending-frames; `signatures info -d`, which '
+               'opens no SQLite connection, is run on the same state and must leave it alone.  The dbstate streams generate '
                'leftover side files whose frames are all checkpointed']
 BATCH = 60
 SHRINK = True
@@ -355,7 +356,6 @@ def setup(ctx):
 		ctx.assume(a)
 	_selfcheck_mmap(ctx)
 	if not ctx.replaying:
-		_observe_wal_pending(ctx)
 		ctx.extra['readonly_on_disk_effective'] = (os.geteuid() != 0)   # chmod does not stop root: the state is then only a mode bit
 
 
@@ -1226,41 +1226,56 @@ def _store_obs_problems(case, obs):
 	return None
 
 
-def _observe_wal_pending(ctx):
-	"""NOT judged (see ASSUMPTIONS): a genome file with pending frames in a leftover -wal file, read by `gambit query`"""
+def k_walpending(ctx, cases):
+	"""A genome file in WAL mode with PENDING (not yet checkpointed) frames in a leftover -wal file -- what a crashed
+	writer leaves behind -- used by a read-side command.  Judged like every other state: no byte of the genome file
+	may change.  On the unchanged repository this FAILS (known finding C18-wal-pending-frames): gambit opens the file
+	read-write, so SQLite transfers the frames into the file when the reading connection closes."""
 	import sqlite3
 	from click.testing import CliRunner
 	from gambit.cli import cli
 	env = _env()
-	d = _private()
-	try:
-		g = os.path.join(d, DB_FILES[0])
-		con = sqlite3.connect(g, isolation_level=None)
+	for c in cases:
+		ctx.case(c, nontrivial=True)
+		ctx.count('stream:wal-pending-frames')
+		d = _private()
 		try:
-			con.execute('PRAGMA journal_mode = wal')
-			con.execute("UPDATE genomes SET description = 'pending' WHERE id = 1")
+			g = os.path.join(d, DB_FILES[0])
+			con = sqlite3.connect(g, isolation_level=None)
+			try:
+				con.execute('PRAGMA journal_mode = wal')
+				con.execute("UPDATE genomes SET description = 'pending' WHERE id = 1")
+				for suffix in ('-wal', '-shm'):
+					shutil.copy(g + suffix, g + suffix + '.keep')
+				shutil.copy(g, g + '.keep')
+			finally:
+				con.close()
+			os.replace(g + '.keep', g)
 			for suffix in ('-wal', '-shm'):
-				shutil.copy(g + suffix, g + suffix + '.keep')
-			shutil.copy(g, g + '.keep')
+				os.replace(g + suffix + '.keep', g + suffix)
+			before = _sha(g)
+			sig_before = _sha(os.path.join(d, DB_FILES[1]))
+			if c.get('cmd') == 'info':
+				args = ['-d', d, 'signatures', 'info', '-d']
+			else:
+				args = ['-d', d, 'query', '-o', os.path.join(env['out'], 'pending'), '--no-progress', '-s', env['querysigs']]
+			res = CliRunner().invoke(cli, args)
+			gc.collect()
+			after = _sha(g)
+			side = sorted(n for n in os.listdir(d) if n.endswith(('-wal', '-shm')))
+			ctx.extra['wal_pending_frames_after_read_side_' + c.get('cmd', 'query')] = (
+				('genome file bytes CHANGED' if after != before else 'genome file bytes unchanged') + f' (exit code {res.exit_code}; side files now: {side})')
+			if after != before or _sha(os.path.join(d, DB_FILES[1])) != sig_before:
+				ctx.violation('walpending', c, f'genome file in WAL mode with pending frames in a leftover -wal file: `gambit {" ".join(a for a in args[2:4])} ...` '
+				              f'(exit code {res.exit_code}) changed the bytes of {DB_FILES[0]}: SHA-256 {before[:12]} -> {after[:12]} (side files now: {side})',
+				              impl=dict(before=before, after=after))
+		except Exception as e:
+			ctx.broke('walpending: state could not be built or observed', repr(e)[:200])
 		finally:
-			con.close()
-		os.replace(g + '.keep', g)
-		for suffix in ('-wal', '-shm'):
-			os.replace(g + suffix + '.keep', g + suffix)
-		before = _sha(g)
-		res = CliRunner().invoke(cli, ['-d', d, 'query', '-o', os.path.join(env['out'], 'pending'), '--no-progress', '-s', env['querysigs']])
-		gc.collect()
-		ctx.extra['wal_pending_frames_after_read_side_query'] = (
-			('genome file bytes CHANGED' if _sha(g) != before else 'genome file bytes unchanged') +
-			f' (exit code {res.exit_code}; side files now: {sorted(n for n in os.listdir(d) if n.endswith(("-wal", "-shm")))})')
-	except Exception as e:
-		ctx.extra['wal_pending_frames_after_read_side_query'] = 'not observed: ' + repr(e)[:120]
-	finally:
-		rec = env['rec']
-		rp = os.path.realpath(d)
-		for k in ('stmts', 'classes', 'modes', 'journal'):
-			rec[k] = [x for x in rec[k] if not x[0].startswith(rp)]
-		shutil.rmtree(d, ignore_errors=True)
+			rec = env['rec']
+			rp = os.path.realpath(d)
+			for k in ('stmts', 'classes', 'modes', 'journal'):
+				rec[k] = [x for x in rec[k] if not x[0].startswith(rp)]
 
 
 # ------------------------------------------------------------------------------------------------
@@ -1563,8 +1578,8 @@ def _history_case(ctx, c, m, mflags_ok, holder):
 				          f'model {len(mcl)} / {len(mmd)}')
 
 
-KINDS = {'session': k_session, 'store': k_store, 'history': k_history}
-CORRESPONDENCES = ['session', 'store', 'history']
+KINDS = {'session': k_session, 'store': k_store, 'history': k_history, 'walpending': k_walpending}
+CORRESPONDENCES = ['session', 'store', 'history', 'walpending']
 
 
 # ------------------------------------------------------------------------------------------------
@@ -1757,6 +1772,9 @@ def _rand_state_inv(rng):
 def generate(ctx):
 	rng = ctx.rng
 	ctx.rule(RULE)
+	# ---- genome file with pending WAL frames (known finding C18-wal-pending-frames on the unchanged repository) ----
+	yield 'walpending', dict(name='wal-pending-frames', cmd='query')
+	yield 'walpending', dict(name='wal-pending-frames-info', cmd='info')
 	# ---- session machine: exhaustive small scope ---------------------------------------------
 	alpha = ['a', 'm1', 'd2', 'q', 'f', 'c', 'r', 'x', 't']
 	depth = ctx.pick(3, 4)
